@@ -257,8 +257,10 @@ class ProgGen:
                     # the spelling is asked about before it is defined (it may already mean something,
                     # e.g. prefix + unit, or nothing) and again afterwards
                     before = rng.choice([["parse_units", name, {}], ["compat", name], ["dim", name], ["root", name],
+                                         ["base", name], ["base", name + "s"], ["root", "K" + name],
                                          ["conv", "2", name, info.units[0]]])
-                    after = rng.choice([["conv", "2", name, info.units[0]], ["root", name], ["parse_units", name, {}], before])
+                    after = rng.choice([["conv", "2", name, info.units[0]], ["root", name], ["parse_units", name, {}],
+                                        ["base", name], before, before])
                     self.pools[ci].append(after)
                     self.pending = [{"c": ci, "k": "define", "line": line}, {"c": ci, "k": "ask", "q": after}]
                     return {"id": sid, "c": ci, "k": "ask", "q": before}
